@@ -9,6 +9,7 @@ import (
 	"os"
 	"runtime"
 	"strings"
+	"sync"
 	"testing"
 	"testing/synctest"
 	"time"
@@ -581,14 +582,17 @@ func TestC08Stall(t *testing.T) {
 		// a stalled client may well not be reading either: whatever NewConn writes then
 		// blocks until a write deadline
 		peerNotReading := rapid.Bool().Draw(rt, "peer_not_reading")
-		for off := 0; off < len(record); off++ {
+		stall := func(stream []byte, off int, exact bool) {
 			var viol string
 			// real-time watchdog around the bubble: a read loop that spins (instead of blocking)
 			// freezes virtual time, so only wall-clock time can expose it
-			watch("C08", map[string]any{"keys": keysReplay([]*hello.Key{sc.Key}), "client_stream": hx(record[:off]), "deadline_ms": d.Milliseconds(), "expect": "stall"}, func() {
+			watch("C08", map[string]any{"keys": keysReplay([]*hello.Key{sc.Key}), "client_stream": hx(stream), "deadline_ms": d.Milliseconds(), "expect": "stall"}, func() {
 				synctest.Test(t, func(t *testing.T) {
-					tr := wire.New(record[:off], nil)
-					tr.BlockWrites = peerNotReading
+					tr := wire.New(stream, nil)
+					// (only for stalls inside the record: an alert for an error found at once is written
+					// after the context was let go of, and whether that write can block is the
+					// transport's business, not part of this property)
+					tr.BlockWrites = peerNotReading && exact
 					var ctx context.Context
 					var cancel context.CancelFunc
 					if kind == 0 {
@@ -617,8 +621,10 @@ func TestC08Stall(t *testing.T) {
 							viol = fmt.Sprintf("NewConn succeeded although the client stalled at offset %d", off)
 						} else if isPanic(r.err) {
 							viol = fmt.Sprintf("panic: %v", r.err)
-						} else if r.at != d {
+						} else if exact && r.at != d {
 							viol = fmt.Sprintf("NewConn returned after %v, context ended after %v (stall at offset %d)", r.at, d, off)
+						} else if r.at > d {
+							viol = fmt.Sprintf("NewConn returned after %v, later than its context's end after %v (the client sent a record holding the first %d bytes of its ClientHello and stalled)", r.at, d, off)
 						}
 					default:
 						viol = fmt.Sprintf("NewConn still blocked 1 s after its context ended (stall at offset %d of %d)", off, len(record))
@@ -628,9 +634,22 @@ func TestC08Stall(t *testing.T) {
 				})
 			})
 			if viol != "" {
-				ev.Violation(rt, "C08", map[string]any{"keys": keysReplay([]*hello.Key{sc.Key}), "client_stream": hx(record[:off]), "deadline_ms": d.Milliseconds(), "expect": "stall"}, "%s", viol)
+				ev.Violation(rt, "C08", map[string]any{"keys": keysReplay([]*hello.Key{sc.Key}), "client_stream": hx(stream), "deadline_ms": d.Milliseconds(), "expect": "stall"}, "%s", viol)
 			}
 			rec.Class("stall_offset")
+		}
+		for off := 0; off < len(record); off++ {
+			stall(record[:off], off, true)
+		}
+		// the client may also put only the beginning of its ClientHello into a (complete) first
+		// record and stall before the next: however NewConn treats such a hello, it returns
+		// an error no later than its context ends
+		msg := record[5:]
+		for _, m := range []int{1, 4, 5, 1 + uniform(rt, "fragment_at", len(msg)-1), len(msg) - 1} {
+			if m > 0 && m < len(msg) {
+				stall(hello.Record(22, 0x0303, msg[:m]), m, false)
+				rec.Class("stall_after_first_fragment")
+			}
 		}
 		rec.Class("stall_hello")
 		if peerNotReading {
@@ -836,5 +855,87 @@ func TestC08Backend(t *testing.T) {
 		rec.Case("backend|"+hx(sum[:8]), true, []string{"hostile_backend_while_inspected"}, func() any {
 			return map[string]any{"kind": "hostile_backend", "records": desc}
 		})
+	})
+}
+
+// TestC08Concurrent: a server handles its connections on one goroutine each. Many NewConn
+// calls (and the first Read of each) run at once, with key material that is fresh per
+// connection or shared by all of them; each must fare exactly as it does alone. The stage
+// runs under the race detector: anything the connections share unsafely is reported there
+// (a concurrent map write would otherwise take the whole process down).
+func TestC08Concurrent(t *testing.T) {
+	rec := ev.Get("C08")
+	rapid.Check(t, func(t *rapid.T) {
+		sc := drawSealed(t, false)
+		ng := rapid.IntRange(2, 16).Draw(t, "goroutines")
+		per := rapid.IntRange(2, 12).Draw(t, "conns_per_goroutine")
+		type job struct {
+			keys   []*hello.Key
+			accept bool
+		}
+		jobs := make([][]job, ng)
+		for g := range jobs {
+			for i := 0; i < per; i++ {
+				switch rapid.IntRange(0, 2).Draw(t, "keys") {
+				case 0: // the key the hello was sealed to (shared by all such connections)
+					jobs[g] = append(jobs[g], job{[]*hello.Key{sc.Key}, true})
+				case 1: // a key of this connection's own under the same config id: not the right one
+					seed := sha256.Sum256([]byte(fmt.Sprintf("c08conc-%d-%d-%x", g, i, sc.Key.Config)))
+					k, err := hello.NewKey(seed[:], sc.Key.ID, sc.Key.PublicName, sc.Key.Suites)
+					if err != nil {
+						t.Fatalf("harness: %v", err)
+					}
+					jobs[g] = append(jobs[g], job{[]*hello.Key{k}, false})
+				default: // both
+					seed := sha256.Sum256([]byte(fmt.Sprintf("c08conc2-%d-%d-%x", g, i, sc.Key.Config)))
+					k, err := hello.NewKey(seed[:], sc.Key.ID+1, sc.Key.PublicName, sc.Key.Suites)
+					if err != nil {
+						t.Fatalf("harness: %v", err)
+					}
+					jobs[g] = append(jobs[g], job{[]*hello.Key{k, sc.Key}, true})
+				}
+			}
+		}
+		var mu sync.Mutex
+		viol := ""
+		start := make(chan struct{})
+		var wg sync.WaitGroup
+		for g := range jobs {
+			wg.Add(1)
+			go func(js []job) {
+				defer wg.Done()
+				<-start
+				for _, j := range js {
+					c, err := newConnRaw(wire.New(sc.Record, io.EOF), j.keys)
+					msg := ""
+					switch {
+					case err != nil:
+						msg = fmt.Sprintf("NewConn failed: %v", err)
+					case c.ECHAccepted() != j.accept:
+						msg = fmt.Sprintf("ECHAccepted()=%v, want %v", c.ECHAccepted(), j.accept)
+					default:
+						got, e := readOneRecord(c)
+						want := sc.Record
+						if j.accept {
+							want = hello.Record(22, 0x0303, sc.WantInner)
+						}
+						if e != nil || !sameRecord(got, want) {
+							msg = fmt.Sprintf("first record differs from what this connection delivers when alone (accepted=%v, err=%v)", j.accept, e)
+						}
+					}
+					if msg != "" {
+						mu.Lock()
+						viol = msg
+						mu.Unlock()
+					}
+				}
+			}(jobs[g])
+		}
+		close(start)
+		wg.Wait()
+		if viol != "" {
+			ev.Violation(t, "C08", map[string]any{"client_stream": hx(sc.Record), "goroutines": ng}, "%d connections handled at once: %s", ng*per, viol)
+		}
+		rec.Class("concurrent_newconn")
 	})
 }
